@@ -801,6 +801,26 @@ func ruleWaitsReleased(c *Ctx, rule string) {
 					if g, how := c.guaranteedClosed(fr); g {
 						rel = fr.String() + " " + how
 					}
+					// the plain receiver's dequeue: cancelling the stream must release it too (it has no context alternative)
+					r := c.receivers()
+					for _, dq := range r.pDeq {
+						if dq != fn {
+							continue
+						}
+						okC := len(r.pCancel) > 0
+						for _, cn := range r.pCancel {
+							reached := false
+							for _, g := range w.Funcs {
+								if !isGenericTemplate(g) && len(closesOfField(g, fr)) > 0 && (g == cn || c.reachedFromAny([]*ssa.Function{cn}, g)) {
+									reached = true
+								}
+							}
+							if !reached {
+								okC = false
+							}
+						}
+						c.check(okC, rule, key+": released by cancel()", w.At(e.Instr), "cancel() reaches close("+fr.String()+")", "the plain receiver's cancel() does not close "+fr.String()+": a reader blocked in dequeue (a handler in RecvMsg on a revision-zero tunnel) is not released when its RPC is cancelled")
+					}
 				}
 				c.check(rel != "", rule, key, w.At(e.Instr), "released by "+rel, "this blocking receive is from "+desc(u.X)+", a channel that is not closed on every termination path (e.g. the settings signal is closed only when settings arrive; the registry latch only when a tunnel registers): without a ctx.Done() alternative the caller hangs when the tunnel or RPC ends first")
 			case "chan-send":
@@ -967,6 +987,28 @@ func ruleClosePathsReachCarrier(c *Ctx, rule string) {
 		}
 	})
 	c.check(recorded, rule, "registration records the instance", posOf(w, add), "instances[stream] = {}", "the tunnel's stream is not recorded in the instance set: Stop cannot half-close it")
+	// ... and stays recorded: outside the constructor the instance set is replaced only while it is nil (lazy creation)
+	instF := FieldRef{"ReverseTunnelServer", w.Roles().RTSInstances}
+	for _, f := range w.Funcs {
+		if isGenericTemplate(f) {
+			continue
+		}
+		for _, st := range storesToField(f, instF) {
+			if st.Parent() != f {
+				continue
+			}
+			if fb := fieldBase(st.Addr); fb != nil && isComplitAlloc(origin(fb)) {
+				continue // the server being constructed
+			}
+			onlyNil := false
+			for _, fa := range factsAt(st) {
+				if x, op, y, okc := cmpFact(fa); okc && op == token.EQL && isFieldLoad(x, instF) && isNilConst(y) {
+					onlyNil = true
+				}
+			}
+			c.check(onlyNil, rule, "instance set replaced only while nil in "+w.Short(f), w.At(st), "guarded by instances == nil", "the set of registered tunnels is replaced while it may hold entries: tunnels registered earlier are forgotten, Stop does not half-close them and then waits forever for their Serve calls")
+		}
+	}
 	// Serve: defer wg.Done dominated by successful addInstance; serveTunnel dominated by the defer
 	var done *ssa.Defer
 	var addCall, serveCall *ssa.Call
@@ -1221,13 +1263,34 @@ func ruleShutdownFlags(c *Ctx, rule string) {
 			c.fail(rule, nm, "-", "not found")
 			continue
 		}
-		ok := false
+		ok, whenActive := false, false
 		for _, st := range storesToField(fn, stF) {
 			if k, isK := constInt(st.Val); isK && k >= 1 && w.Locks().MustAt(st).has("ReverseTunnelServer.mu") {
 				ok = true
+				// the store is reached on an active server: every test of the state that guards it holds for state == active (0)
+				whenActive = true
+				for _, f := range factsAt(st) {
+					x, op, y, isCmp := cmpFact(f)
+					if !isCmp {
+						continue
+					}
+					if isFieldLoad(y, stF) {
+						x, y = y, x
+						op = map[token.Token]token.Token{token.LSS: token.GTR, token.GTR: token.LSS, token.LEQ: token.GEQ, token.GEQ: token.LEQ, token.EQL: token.EQL, token.NEQ: token.NEQ}[op]
+					}
+					kk, isKK := constInt(y)
+					if !isFieldLoad(x, stF) || !isKK {
+						continue
+					}
+					holds := map[token.Token]bool{token.EQL: 0 == kk, token.NEQ: 0 != kk, token.LSS: 0 < kk, token.LEQ: 0 <= kk, token.GTR: 0 > kk, token.GEQ: 0 >= kk}[op]
+					if !holds {
+						whenActive = false
+					}
+				}
 			}
 		}
 		c.check(ok, rule, nm+" sets a state >= closing under the server lock", posOf(w, fn), "state set", nm+" does not set a state for which the refusal predicate is true")
+		c.check(!ok || whenActive, rule, nm+" sets that state when the server is active", posOf(w, fn), "the guards of the store hold for state == active", "the store that begins shutdown is guarded by a test of the state that is false for an active server: "+nm+" on a running server changes nothing, new RPCs keep being accepted")
 	}
 }
 
@@ -1635,7 +1698,12 @@ func (c *Ctx) isTableRemoval(in ssa.Instruction, table, idf FieldRef) bool {
 // reachedFromReceiverClose: fn is reached (same goroutine, incl. sync.Once functions) from a receiver's close method.
 func (c *Ctx) reachedFromReceiverClose(fn *ssa.Function) bool {
 	r := c.receivers()
-	for _, cl := range append(append([]*ssa.Function{}, r.closeFn...), r.pClose...) {
+	return c.reachedFromAny(append(append([]*ssa.Function{}, r.closeFn...), r.pClose...), fn)
+}
+
+// reachedFromAny: fn runs (same goroutine, also through a method value handed to sync.Once.Do) when one of `from` is called.
+func (c *Ctx) reachedFromAny(from []*ssa.Function, fn *ssa.Function) bool {
+	for _, cl := range from {
 		if c.W.sameGoroutineReach(cl, nil)[fn] != nil {
 			return true
 		}
